@@ -106,7 +106,12 @@ class Walker:
                 ex |= ex0
             body, exb = self.block(e["b"], cur)
             # second pass so that state produced by one iteration flows into the next
-            body2, exb2 = self.block(e["b"], body | {x[2] for x in exb if x[0] == "continue" and x[1] in (None, e.get("label"))})
+            again = body | {x[2] for x in exb if x[0] == "continue" and x[1] in (None, e.get("label"))}
+            if k == "while":
+                # the condition is evaluated again before every further iteration
+                again, ex1 = self.cond(e["c"], again)
+                ex |= ex1
+            body2, exb2 = self.block(e["b"], again)
             exb |= exb2
             body |= body2
             label = e.get("label")
@@ -114,7 +119,10 @@ class Walker:
             cont = {x for x in exb if x[0] == "continue" and x[1] in (None, label)}
             rest = exb - brk - cont
             after = {x[2] for x in brk}
-            if k != "loop":
+            if k == "while":
+                # the loop is left after the condition was evaluated (and found false)
+                after |= cur | again
+            elif k != "loop":
                 after |= cur | body | {x[2] for x in cont}
             return after, ex | rest
         if k == "return":
